@@ -36,7 +36,7 @@ REGISTRY["C08"] = dict(
         "Structural clauses: (a) all 82 entries of UNIT_CONVERSION_TABLE, extracted statically from the initialiser, equal the CSS ratios and the table is "
         "reciprocal/transitive/closed; (b) Unit::kind, the table's row groups, comparable()'s decision structure (summarised per CFG path and evaluated over all 34x33 unit pairs), "
         "KNOWN_COMPATIBILITIES and From<String>/Display agree; (c) every Number::convert / conversion_factor().unwrap() site is guarded on every path by comparable()/wrappers on the same pair; "
-        "(d) conversion direction (from = own unit, to = the other operand's / result's unit), the unit-selection ladder of the four add/sub implementations, and the dimensional direction of the two unit-cancellation sites in multiply_units (value divided by conversion_factor(denominator, numerator)); (e) visit_number rejects complex units. "
+        "(d) conversion direction (from = own unit, to = the other operand's / result's unit), the unit-selection ladder of the four add/sub implementations, and the dimensional direction of the two unit-cancellation sites in multiply_units (value divided by conversion_factor(denominator, numerator)); (e) visit_number rejects complex units and no other function formats a number's unit into a string value without excluding compound units (5 functions do: known findings); (f) in every comparable()-guarded arm a number is built only on paths that passed comparable(), found equal units, or a unitless side. "
         "Not decided: arithmetic results for sampled magnitudes, which units multiply_units cancels (only the direction of the factor)."
     ),
     explanation=(
@@ -51,9 +51,9 @@ REGISTRY["C01"] = dict(
     level="other",
     technique="static analysis: error-kind typestate over the resolved call graph; predicate-sensitive guard dominance; lexer-progress abstract interpretation of parser loops; reachability of explicit panic macros",
     claim=(
-        "Four structural clauses, each a necessary condition of totality, decided for all sites of the current tree: (a) only Raw errors can reach SassError::raw(); "
+        "Five structural clauses, each a necessary condition of totality, decided for all sites of the current tree: (a) only Raw errors can reach SassError::raw(); "
         "(b) every unit conversion is guarded on every path; (c) each of the 84 loops of the parsers provably consumes input on every cycle (67), is driven by a finite std iterator (7) or is one of 10 hand-reviewed exceptions, and no loop has a forced cycle at end of input; "
-        "(d) every todo!/unimplemented!/assert! site is unreachable, guarded, or in the reviewed list. NOT decided: the ~230 unwrap/unreachable!/index sites resting on value invariants, "
+        "(d) every todo!/unimplemented!/assert! site is unreachable, guarded, or in the reviewed list; (e) the panic-capable operations inside error.rs (building, classifying and rendering an error) are exactly the four reviewed ones. NOT decided: the ~230 unwrap/unreachable!/index sites resting on value invariants, "
         "stack exhaustion on deep nesting, termination of evaluation/serialisation."
     ),
     explanation=(
@@ -95,7 +95,7 @@ REGISTRY["C09"] = dict(
     level="other",
     technique="static analysis: variant-pair matrix extraction from the two-level match of Value::eq / not_equals (symmetry and complement), HIR impl facts (no `ne` override), who-may-call rules on SassMap's entry vector, predicate-sensitive guard analysis for insert/visit_map",
     claim=(
-        "Structural clauses: (a) the variant-pair matrix of Value::eq is symmetric and reflexive-capable, and Value::not_equals is never constant-true where == can be true; (b) no PartialEq impl of a value type overrides `ne`, "
+        "Structural clauses: (a) the variant-pair matrix of Value::eq is symmetric and reflexive-capable, Value::not_equals is never constant-true where == can be true, and for every pair both handle in an arm of their own the two arms compare the same attributes (separator, brackets, length, elements, ...); (b) no PartialEq impl of a value type overrides `ne`, "
         "visit_bin_op maps Equal/NotEqual to eq/ne; (c) every key comparison in SassMap and index() is Value's ==/not_equals; (d) SassMap's vector is only pushed/retained/iterated and insert pushes only after the search missed; "
         "(e) visit_map inserts only after the duplicate test and duplicates are Err; (f) number equality is key-induced: fuzzy_equals returns true only under k(a) == k(b) for one per-operand expression k (a bucket partition, hence transitive) and Number's == is exactly fuzzy_equals. NOT decided: transitivity across unit conversion (1in == 96px == ...), which rests on floating-point values."
     ),
@@ -219,7 +219,7 @@ REGISTRY["C03"] = dict(
     claim=(
         "Structural discipline clauses: (a,b) every discovered temporary override of scopes, flags, env, content, configuration and import path (34 instances frozen from the pinned tree) is restored on every non-Err exit; "
         "(c) only the lookup/insert functions write Scopes.last_variable_index, every scope pop / variable removal resets it, and every insertion into a scope map first refreshes the cache to that (name, index), resets it, or targets index 0; (d) BinaryOp::precedence follows the Sass order, and/or evaluate the right operand only under the "
-        "right truthiness, if() evaluates exactly one branch; (e) arguments are evaluated before the environment switch, verify precedes binding, positional binding precedes defaults precedes the body. "
+        "right truthiness, if() evaluates exactly one branch; (e) arguments are evaluated before the environment switch, verify precedes binding, positional binding precedes defaults precedes the body; (f) scope maps, which closures share by Arc (new_closure clones the Arcs), are only inserted into: destructive BTreeMap operations on Identifier-keyed value/mixin/function maps are an exact reviewed inventory. "
         "NOT decided: that the values computed are the specified ones; !global/!default semantics; closure capture; @content scope."
     ),
     explanation="Clauses C03-a..e of DESIGN.md §3 on MIR facts of the current tree. NOT decided: evaluation results.",
@@ -242,8 +242,8 @@ REGISTRY["C10"] = dict(
     level="other",
     technique="static analysis: must-reach rule (a field must have an error-producing reader / a consulted map must have a writer), visibility-filter dominance shared with C05-d, no-effect-operation-on-temporary detector",
     claim=(
-        "Four structural clauses only: (a) Extension/ExtendRule.is_optional must be read by a branch whose mandatory edge can produce an Err (`extending a missing target is an error unless !optional`); "
-        "(b) placeholder selectors are filtered before anything is written (C05-d); (c) the media contexts consulted while extending are recorded by some writer, and `get_mut(k).replace(v)` on temporaries are reported (undecided); (d) register_selector records the rule under every simple selector and always descends into the inner list of a selector pseudo, independent of what the index already holds. "
+        "Five structural clauses only: (a) Extension/ExtendRule.is_optional must be read by a branch whose mandatory edge can produce an Err (`extending a missing target is an error unless !optional`); "
+        "(b) placeholder selectors are filtered before anything is written (C05-d); (c) the media contexts consulted while extending are recorded by some writer, and `get_mut(k).replace(v)` on temporaries are reported (undecided); (d) register_selector records the rule under every simple selector and always descends into the inner list of a selector pseudo, independent of what the index already holds; (e) every min_specificity/max_specificity accessor reads and sums only its own bound, simple selectors carry the CSS weights, and pseudo-element vs pseudo-class weight is decided by `is_class`. "
         "NOT decided: everything that makes @extend interesting - that rewritten selectors match the right elements, second-law specificity, trimming, media scoping semantics."
     ),
     explanation="Clauses of DESIGN.md §3 C10 on MIR facts of the current tree. Both (a) and the media-context part of (c) are violated on the pinned tree (missing features) and listed as known findings with reproducing inputs. NOT decided: matching semantics of extended selectors.",
